@@ -117,6 +117,10 @@ impl Ctx {
         self.samples.lock().unwrap().len() < 12
     }
     pub fn violation(&self, key: String, what: String, case: Value) {
+        // a decoded value may hold a String that is not UTF-8 (that is what some checks look for);
+        // whatever is written to the part file must be valid UTF-8
+        let key = String::from_utf8_lossy(key.as_bytes()).into_owned();
+        let what = String::from_utf8_lossy(what.as_bytes()).into_owned();
         self.violation_total.fetch_add(1, Relaxed);
         let mut v = self.violations.lock().unwrap();
         let n = v.len();
